@@ -42,7 +42,7 @@ type bstate struct {
 // does); scribble overwrites the buffer once the call has returned.
 func (s *bstate) arg(i int) []byte {
 	if s.buf == nil {
-		s.buf = make([]byte, 256)
+		s.buf = make([]byte, 512)
 	}
 
 	return s.buf[:copy(s.buf, s.keys[i])]
@@ -385,6 +385,17 @@ func c07Cells(tier string) []Cell {
 		}
 	}
 
+	// Long keys (300 bytes; two differ in the last byte only, one is a 160-byte prefix of them): the same alphabet,
+	// sequences one operation shorter.
+	for _, b := range backendKinds {
+		for _, ttl := range []string{"5m", "unlimited"} {
+			nops := len(c07Alphabet(c07LongKeys, b != "SyncMap"))
+			for first := 0; first < nops; first++ {
+				cells = append(cells, Cell{ID: c07Cell{Backend: b, TTL: ttl, Keys: "long", First: first}.id()})
+			}
+		}
+	}
+
 	// One key in EVERY shard (plus a second key in the first and in the last shard): loops over shards must
 	// cover all of them.
 	for _, b := range backendKinds {
@@ -519,6 +530,25 @@ func c07AllShards(cc c07Cell, env *Env) CellResult {
 	return res
 }
 
+// c07LongKeys: keys far longer than anything a fixed-size window would cover; two of them differ in the very last
+// byte only, the third is a (long) prefix of both.
+var c07LongKeys = func() [][]byte {
+	a := bytes.Repeat([]byte("long-key-segment/"), 18)[:300]
+	b := append([]byte(nil), a...)
+	b[len(b)-1] ^= 1
+
+	return [][]byte{a, b, append([]byte(nil), a[:160]...)}
+}()
+
+// c07KeySet returns the keys a cell works on.
+func c07KeySet(kind, tier string) [][]byte {
+	if kind == "long" {
+		return c07LongKeys
+	}
+
+	return c07Keys[:c07NKeys(tier)]
+}
+
 func c07NKeys(tier string) int {
 	if tier == "thorough" {
 		return 4
@@ -528,7 +558,7 @@ func c07NKeys(tier string) int {
 }
 
 func c07Spec(cc c07Cell, tier string, depth int) (SeqSpec, []bop) {
-	keys := c07Keys[:c07NKeys(tier)]
+	keys := c07KeySet(cc.Keys, tier)
 	ops := c07Alphabet(keys, cc.Backend != "SyncMap")
 	cfg := cache.Config{Name: "c07", ExpirationJitter: -1, TimeToLive: 5 * time.Minute}
 
@@ -622,6 +652,10 @@ func c07Run(c Cell, env *Env) CellResult {
 		depth = 4
 	}
 
+	if cc.Keys == "long" {
+		depth-- // the long-key cells are about key identity: one operation less
+	}
+
 	sp, ops := c07Spec(cc, env.Tier, depth)
 
 	if env.Replay != nil {
@@ -660,7 +694,7 @@ func init() {
 		ID: "C07", Title: "Backends behave as a map with per-entry expiry (sequential model)",
 		Cells: c07Cells, Run: c07Run,
 		Rule: "explicit-state BFS over operation sequences (Write with default/+10s/-10s TTL, Read, Read under SkipRead, Delete, ExpireAll, DeleteAll, " +
-			"Load/Store, Advance 11s/6m) on keys {empty, 1 byte, 70 bytes, binary}; every transition calls the real backend and the reference map in lock-step and " +
+			"Load/Store, Advance 11s/6m) on keys {empty, 1 byte, 70 bytes, binary} and, one operation shorter, on 300-byte keys {two differing in the last byte, a 160-byte prefix of them}; every transition calls the real backend and the reference map in lock-step and " +
 			"every key argument is passed in one caller-owned buffer that is overwritten after the call returns; compares the return value, then Len and a full Walk; states are deduplicated on the canonical (key,value,expiry-now) set; " +
 			"an outcome is (operation class, observed result); plus cells with one key in EVERY shard (and two in the first and last) under every sequence of <=3 operations from {ExpireAll, DeleteAll, Advance 6m, Cleanup, rewrite all}",
 		Assumptions: []string{
